@@ -1,4 +1,5 @@
 """C14 - SyncWrapper keeps blocking work and destruction off the async thread."""
+import re
 from .mcommon import calls_named, in_cycle, is_dyn_call
 from .roles import adt_of, _one
 from .facts import strip_generics, Operand, Place
@@ -111,46 +112,82 @@ def run(ctx):
               and any(s[0] == 'call' and s[1] == 'std::sync::Mutex::lock' for s in sources(can_, blk.term.args[0]))]
         ctx.ob('R14.4', 'interact does not run on a poisoned value (the lock result is unwrapped, never recovered)', not rec and len(uw) == 1, ctx.where(cb_),
                'poison recovery in the interact closure: %s' % rec if rec else '%d unwraps of the lock result' % len(uw), construct='interact:poison-recovery')
+    TAKE_FNS = {'std::option::Option::take', 'std::mem::take', 'std::mem::replace', 'std::option::Option::replace'}
     takers = []
     for b in bodies:
         ban = prog.an(b)
         for blk in b.blocks:
             t = blk.term
-            if t.kind == 'call' and not blk.cleanup and t.callee_names() & {'std::option::Option::take', 'std::mem::take', 'std::mem::replace', 'std::option::Option::replace'}:
+            if t.kind != 'call' or blk.cleanup:
+                continue
+            if t.callee_names() & TAKE_FNS:
                 targ = (t.func.const.get('targs') or [''])[0]
                 if targ in ('T', 'std::option::Option<T>'):
                     takers.append((b, blk))
+                continue
+            # `.and_then(Option::take)`: the taking function passed by name to a combinator takes at that call
+            for a in t.args:
+                if a.kind == 'const' and a.const.get('fn') and strip_generics(a.const.get('rfn') or a.const['fn']) in TAKE_FNS and (a.const.get('targs') or [''])[0] in ('T', 'std::option::Option<T>'):
+                    takers.append((b, blk)); break
+    bgp = bg[0][1].path if bg else None
     for b, blk in takers:
-        ok = bg and b.path == bg[0][1].path
-        ctx.ob('R14.2', 'the value is taken out of the Option only on the background blocking thread', bool(ok), ctx.where(b, blk.term.line),
+        # in Drop itself a take is harmless as long as the taken value only travels into the background closure (no T-carrying
+        # local is destroyed inline - checked below as drop:inline); anywhere else it moves the destructor to the calling thread
+        ok = bg and (b.path == bgp or b.path == drop_b.path)
+        ctx.ob('R14.2', 'the value is taken out of the Option only on the background blocking thread (or in Drop, on its way there)', bool(ok), ctx.where(b, blk.term.line),
                '%s takes the wrapped value: its destructor would run on the calling thread' % b.name if not ok else '', construct='take-T:' + b.name)
     ctx.floor('R14.2', 'sites taking the wrapped value', len(takers), 1)
     if bg:
         cb = bg[0][1]
         can = prog.an(cb)
-        sws = [blk for blk in cb.blocks if blk.term.kind == 'switch' and blk.term.j.get('adt') == 'std::result::Result']
-        okarms = False
-        if sws:
-            arms = dict(sws[0].term.switch_arms())
-            tk = [blk.idx for b, blk in takers if b.path == cb.path]
-            rets = can.exits()['return']
-            okarms = True
-            for lab in ('Ok', 'Err'):
-                if lab not in arms:
-                    okarms = False; continue
-                other = [t_ for l2, t_ in arms.items() if l2 != lab]
-                esc = can.reach([arms[lab]], ('normal',), avoid=tk + other)
-                if any(e in esc for e in rets):
+        # every access to the shared Mutex on the way to destruction (lock in the closure; get_mut / into_inner of a fast path in
+        # Drop) yields a LockResult: the value is taken on its Ok arm AND on its poisoned arm.  `.ok()`, `if let Ok(..)`,
+        # `unwrap_or_default()` .. drop the poisoned arm: the value then stays in the Mutex and dies with the last Arc, inline
+        LOCKISH = {'std::sync::Mutex::lock', 'std::sync::Mutex::get_mut', 'std::sync::Mutex::into_inner', 'std::sync::Mutex::try_lock'}
+        n_lock = 0
+        okarms = True
+        why = []
+        for B in (cb, drop_b):
+            ban = prog.an(B)
+            tk = [blk.idx for b, blk in takers if b.path == B.path]
+            rets = ban.exits()['return']
+            for L in B.blocks:
+                if not (L.term.kind == 'call' and not L.cleanup and L.term.callee_names() & LOCKISH):
+                    continue
+                n_lock += 1
+                lname = sorted(L.term.callee_names() & LOCKISH)[0]
+                handled = False
+                for sw_, okr, err in result_matches(ban, lambda n: n == lname):
+                    arms = dict(sw_.term.switch_arms())
+                    handled = True
+                    for lab in ('Ok', 'Err'):
+                        other = [t_ for l2, t_ in arms.items() if l2 != lab]
+                        esc = ban.reach([arms[lab]], ('normal',), avoid=tk + other)
+                        if any(e in esc for e in rets):
+                            okarms = False; why.append('%s:%d the %s arm of %s returns without taking the value' % (B.name, sw_.term.line, lab, lname.split('::')[-1]))
+                rec = [blk for blk in B.blocks if blk.term.kind == 'call' and not blk.cleanup and blk.term.callee_names() & {'std::result::Result::unwrap_or_else'} and
+                       any(a.kind == 'const' and a.const.get('fn') and strip_generics(a.const['fn']).endswith('PoisonError::into_inner') for a in blk.term.args) and
+                       any(s_[0] == 'call' and s_[1] == lname for s_ in sources(ban, blk.term.args[0]))]
+                for r_ in rec:
+                    handled = True
+                    esc = ban.reach([r_.idx], ('normal',), avoid=tk)
+                    if any(e in esc for e in rets):
+                        okarms = False; why.append('%s:%d returns without taking the value after the recovered %s' % (B.name, r_.term.line, lname.split('::')[-1]))
+                # any other consumer of the LockResult
+                other_use = [blk for blk in B.blocks if blk.term.kind == 'call' and not blk.cleanup and blk.idx != L.idx and blk not in rec and blk.term.args and
+                             any(s_[0] == 'call' and s_[1] == lname for s_ in sources(ban, blk.term.args[0])) and
+                             any(strip_generics(n).startswith('std::result::Result::') for n in blk.term.callee_names())]
+                if other_use or not handled:
                     okarms = False
-        if not sws:
-            # the same without a match: `lock().unwrap_or_else(PoisonError::into_inner)` yields the guard in both cases
-            tk = [blk.idx for b, blk in takers if b.path == cb.path]
-            rec = [blk for blk in cb.blocks if blk.term.kind == 'call' and not blk.cleanup and blk.term.callee_names() & {'std::result::Result::unwrap_or_else'} and
-                   any(a.kind == 'const' and a.const.get('fn') and strip_generics(a.const['fn']).endswith('PoisonError::into_inner') for a in blk.term.args) and
-                   any(s_[0] == 'call' and s_[1] == 'std::sync::Mutex::lock' for s_ in sources(can, blk.term.args[0]))]
-            esc = can.reach([0], ('normal',), avoid=tk)
-            okarms = len(rec) == 1 and bool(tk) and not any(e in esc for e in can.exits()['return'])
-        ctx.ob('R14.2', 'the value is destroyed on both the Ok and the poisoned arm of the lock', okarms, ctx.where(cb), '', construct='drop:both-arms')
+                    why.append('%s:%d the result of %s is consumed by %s: the poisoned arm is not taken' % (B.name, L.term.line, lname.split('::')[-1], sorted(n for x in other_use for n in x.term.callee_names()) or 'no two-armed match'))
+        ctx.ob('R14.2', 'the value is destroyed on both the Ok and the poisoned arm of the lock', okarms and n_lock >= 1, ctx.where(cb), '; '.join(why), construct='drop:both-arms')
+        # an explicit drop(x) of a T-carrying value in Drop itself is inline destruction too
+        for blk in drop_b.blocks:
+            t = blk.term
+            if t.kind == 'call' and not blk.cleanup and t.callee_names() & {'std::mem::drop'} and t.args:
+                targ = (t.func.const.get('targs') or [''])[0]
+                if 'T' in re.findall(r'\b[A-Z]\w*\b', targ) and 'std::sync::Arc' not in targ and not targ.startswith('&'):
+                    ctx.ob('R14.2', 'Drop does not destroy T inline', False, ctx.where(drop_b, t.line), 'drop::<%s>' % targ, construct='drop:inline')
         # the drop body itself holds no T-carrying local other than the Arc clone it moves into the closure
         dan = prog.an(drop_b)
         for blk in drop_b.blocks:
